@@ -1,0 +1,8 @@
+//go:build !verif
+
+// Package verifhook holds verification-only instrumentation. Without the
+// `verif` build tag every function in it is an empty, inlinable no-op.
+package verifhook
+
+// Jitter is a no-op unless built with -tags verif.
+func Jitter(site string, idx int) {}
